@@ -165,7 +165,10 @@ pub fn exec(op: &str, a: &Value) -> Option<Value> {
         "Tzdb.define" => define(js::s(a, "zone"), &a["desc"]),
         "Tzdb.roundtrip" => match crate::synth_tzif::roundtrip_real(js::s(a, "zone")) { Ok(()) => ok(json!(true)), Err(e) => json!({"kind": "harness-error", "what": e}) },
         "Tzdb.table" if crate::synth_tzif::is_synth(js::s(a, "zone")) => match synth_table(js::s(a, "zone")) { Ok(t) => ok(t), Err(_) => err("generic") },
-        "Tzdb.table" => match read_table(js::s(a, "zone")) { Ok(t) => ok(t), Err(_) => err("generic") },
+        // the file of the IANA name that equals the identifier up to ASCII case (identifiers are case-insensitive); names that are no
+        // IANA name are looked up as they are written
+        "Tzdb.table" => { let z = js::s(a, "zone"); let canon = iana_names().into_iter().find(|n| n.eq_ignore_ascii_case(z)).unwrap_or_else(|| z.to_string());
+                          match read_table(&canon) { Ok(t) => ok(t), Err(_) => err("generic") } }
         "Tzdb.names" => ok(Value::Array(iana_names().iter().map(|n| p_chars(n)).collect())),
         "Tzdb.offset" => offset(js::s(a, "zone"), &a["t"]),
         "Tzdb.local" => local(js::s(a, "zone"), &a["local"]),
